@@ -10,8 +10,8 @@ var (
 	genExpand    = genExpandReal
 	genAccepted  = genAcceptedReal
 	genWriteTgz  = stub("G8")
-	genDropped   = stub("G9")
-	genClock     = stub("G10")
-	genTemplates = stub("G11")
+	genDropped   = genDroppedReal
+	genClock     = genClockReal
+	genTemplates = genTemplatesReal
 	genPins      = stub("G12")
 )
